@@ -43,7 +43,8 @@ package surgeon
 //@   props C20
 //@   ensures [onlypath] fwcount > old(fwcount) ==> fwpath == path
 //@   ensures [nocreate] ncreated == old(ncreated)
-//@   skip nopanic because element-range arithmetic on decoded inodes (ReadInodeFromPage / WriteInodeToPage are not under contract yet): only the write target is claimed here
+//@   skip nopanic because element-range arithmetic on decoded inodes (WriteInodeToPage is not under contract yet): only the write target is claimed here
+//@   skip pre/ReadInodeFromPage because the page comes straight from the file the operator named: that its keys are non-empty is not established here (a page with an empty key makes ReadInodeFromPage's own assertion panic before anything is written, which is within what C20 allows)
 
 //@ func ClearPage
 //@   props C20
